@@ -1,5 +1,5 @@
 (* Properties/C12.v — Magnet metadata is accepted only if authentic, whatever peers send. *)
-From Storrent Require Import Base.Bytes Base.Bencode Model.Wire Model.Torfile Model.Metadata Proof.Metadata.
+From Storrent Require Import Base.Bytes Base.Bencode Model.Wire Model.Torfile Model.Metadata Proof.Metadata Proof.MetaLive.
 Open Scope N_scope.
 
 (* For every SHA-1 function H and info-hash, and every history of size votes, periodic
@@ -19,3 +19,42 @@ Theorem c12_total : forall (H : bytes -> bytes) ihash ops o,
   snd (fst (mstep H ihash (mrun H ihash ms_init ops) o)) <> GPanic.
 Proof. exact metadata_no_panic. Qed.
 Print Assumptions c12_total.
+
+(* Liveness.  PARTIAL: proved from a buffer of the right size that is not full and holds only
+   authentic blocks ([clean], e.g. the buffer right after the size has been guessed, or after a
+   hash-mismatch reset and the next request: c12_round_after_reset_completes) — or from a torrent
+   that is usable already.  Then every authentic round (blocks of the real dictionary with the real
+   size, in any order, repeated, interleaved with periodic requests guessing the real size) that
+   delivers every index ends with the torrent usable, with the authentic geometry.  For every
+   SHA-1 function H and every valid dictionary. *)
+Theorem c12_liveness_partial : forall (H : bytes -> bytes) info g,
+  metadata_complete info = MOk g -> 0 < len info ->
+  forall ops st,
+  good info g st -> Forall (honest info) ops ->
+  (forall j, (j < N.to_nat (nblocks (len info)))%nat -> (done g st \/ has info st j) \/ delivered info j ops) ->
+  done g (mrun H (H info) st ops).
+Proof. exact honest_round_completes. Qed.
+Print Assumptions c12_liveness_partial.
+
+Theorem c12_round_after_reset_completes : forall (H : bytes -> bytes) info g,
+  metadata_complete info = MOk g -> 0 < len info ->
+  forall st ops,
+  ms_complete st = None -> ms_size st <> len info -> len info <= max_metadata ->
+  Forall (honest info) ops ->
+  (forall j, (j < N.to_nat (nblocks (len info)))%nat -> delivered info j ops) ->
+  done g (mrun H (H info) st (MRequest (len info) :: ops)).
+Proof. exact round_after_reset_completes. Qed.
+Print Assumptions c12_round_after_reset_completes.
+
+(* The full statement — from ANY reachable state, one authentic round after the last corruption
+   suffices — is false of this model, and of tor/metadata.go (known finding
+   C12-forged-block-holds-index, replayed on the implementation by the check): after a forged
+   block for index 0 of a two-block dictionary, the authentic blocks 0 and 1 end in a reset. *)
+Theorem c12_liveness_refuted :
+  exists H info g pre ops,
+    metadata_complete info = MOk g /\ 0 < len info /\
+    Forall (honest info) ops /\
+    (forall j, (j < N.to_nat (nblocks (len info)))%nat -> delivered info j ops) /\
+    ms_complete (mrun H (H info) (mrun H (H info) ms_init pre) ops) = None.
+Proof. exact liveness_from_any_state_refuted. Qed.
+Print Assumptions c12_liveness_refuted.
